@@ -112,5 +112,11 @@ func (fs *FileSystem) Retrieve(id string, _ *RetrieveOptions) (*sbom.Document, e
 		return nil, fmt.Errorf("unmarshaling protobom data: %w", err)
 	}
 
+	// Entries are named after the document id. An entry holding anything else
+	// (an empty or truncated file decodes without error) is damaged.
+	if bom.GetMetadata().GetId() != id {
+		return nil, fmt.Errorf("stored entry does not contain document %q", id)
+	}
+
 	return bom, nil
 }
